@@ -6,6 +6,10 @@
   `headerStep_first'` needs nothing but that test, every other step lemma has its negation as a hypothesis
   (`headerStep_late`), and `parseHeader_unified'` / `headerLoop_unified` no longer exclude a first body line that starts
   with `--- ` / `+++ `.  `parseHeader_unified` / `headerStep_first` keep their old signatures (wrappers).
+
+  At the end: the `Prereq: ` / `Index: ` lines (`headerStep_prereq`: strip count 0), the operation `parseHeader` returns
+  (`opOf`, `parseHeader_operation`, `parseHeader_git_operation`: nothing is inferred from the ranges alone in a git
+  section) and the header of a whole git section (`headerLoop_git`, `parseHeader_git_section`, `gitInferredOp`).
 -/
 import PatchModel.Lemmas.Inert
 import PatchModel.Lemmas.Unified
@@ -166,7 +170,7 @@ theorem headerStep_late (st : HState) (l : Bytes) (strip : Int) (hn : ¬ firstBo
        | some r => (parseFileLine r strip).map fun res => ({ st with patch := { p with indexPath := res.1 } }, true)
        | none =>
        match consumeStr (str "Prereq: ") l with
-       | some r => (parseFileLine r strip).map fun res => ({ st with patch := { p with prerequisite := res.1 } }, true)
+       | some r => (parseFileLine r 0).map fun res => ({ st with patch := { p with prerequisite := res.1 } }, true)
        | none =>
        match consumeStr (str "diff --git ") l with
        | some r =>
@@ -421,7 +425,8 @@ theorem parseHeader_unified' (strip : Int) (par : Parser) (pt : Patch) (filler :
       (filler ++ [(⟨str "--- " ++ old ++ [TAB] ++ oldt, .lf⟩ : Line), ⟨str "+++ " ++ new ++ [TAB] ++ newt, .lf⟩]).length := by
     simp only [List.length_append, List.length_cons, List.length_nil]; omega
   rw [e, hsk]
-  simp only [List.length_append, List.length_cons, List.length_nil, Nat.zero_add, inferredOp]
+  simp only [List.length_append, List.length_cons, List.length_nil, Nat.zero_add, inferredOp, Bool.not_false, true_or,
+    and_true]
   split
   · rfl
   · split <;> rfl
@@ -504,5 +509,251 @@ theorem parseHeader_git_first (par : Parser) (pt : Patch) (strip : Int) (l : Lin
   have hg : p.format = .git := by rw [hfmt, hgit]; rfl
   have := Cost.parseHeader_git par pt strip body p info par' h hg
   exact ⟨hg, this.1, this.2.1, this.2.2⟩
+
+/-! ### the `Prereq: ` and `Index: ` lines -/
+
+/-- a `Prereq: ` line (whatever the line before looked like: it starts with `P`): the word is read with a strip count of 0,
+    whatever `-p` says — it is a word to look for in the file, not the name of one -/
+theorem headerStep_prereq (st : HState) (r : Bytes) (strip : Int) :
+    headerStep st (str "Prereq: " ++ r) strip =
+      (parseFileLine r 0).map fun res => ({ entered st with patch := { st.patch with prerequisite := res.1 } }, true) := by
+  have hd : (str "Prereq: " ++ r).head? = some 80 := by rw [str_prereq]; rfl
+  have h1 : consumeStr (str "*** ") (str "Prereq: " ++ r) = none :=
+    consumeStr_none_of_startsWith (startsWith_false_of_head _ _ _ _ str_old4 (by rw [hd]; decide))
+  have h2 : consumeStr (str "+++ ") (str "Prereq: " ++ r) = none :=
+    consumeStr_none_of_startsWith (startsWith_false_of_head _ _ _ _ str_plus4 (by rw [hd]; decide))
+  have h3 : consumeStr (str "--- ") (str "Prereq: " ++ r) = none :=
+    consumeStr_none_of_startsWith (startsWith_false_of_head _ _ _ _ str_new4 (by rw [hd]; decide))
+  have h4 : consumeStr (str "Index: ") (str "Prereq: " ++ r) = none :=
+    consumeStr_none_of_startsWith (startsWith_false_of_head _ _ _ _ str_index (by rw [hd]; decide))
+  rw [headerStep_late _ _ _ (not_firstBodyLine_of_head (by rw [hd]; decide) (by rw [hd]; decide) (by rw [hd]; decide))]
+  simp only [h1, h2, h3, h4, ite_self, Unified.consumeStr_append]
+
+/-- an `Index: ` line, for comparison: the name on it IS stripped by `-p` -/
+theorem headerStep_index (st : HState) (r : Bytes) (strip : Int) :
+    headerStep st (str "Index: " ++ r) strip =
+      (parseFileLine r strip).map fun res => ({ entered st with patch := { st.patch with indexPath := res.1 } }, true) := by
+  have hd : (str "Index: " ++ r).head? = some 73 := by rw [str_index]; rfl
+  have h1 : consumeStr (str "*** ") (str "Index: " ++ r) = none :=
+    consumeStr_none_of_startsWith (startsWith_false_of_head _ _ _ _ str_old4 (by rw [hd]; decide))
+  have h2 : consumeStr (str "+++ ") (str "Index: " ++ r) = none :=
+    consumeStr_none_of_startsWith (startsWith_false_of_head _ _ _ _ str_plus4 (by rw [hd]; decide))
+  have h3 : consumeStr (str "--- ") (str "Index: " ++ r) = none :=
+    consumeStr_none_of_startsWith (startsWith_false_of_head _ _ _ _ str_new4 (by rw [hd]; decide))
+  rw [headerStep_late _ _ _ (not_firstBodyLine_of_head (by rw [hd]; decide) (by rw [hd]; decide) (by rw [hd]; decide))]
+  simp only [h1, h2, h3, ite_self, Unified.consumeStr_append]
+
+/-! ### the operation the header scan returns -/
+
+/-- the operation inferred from the ranges of the first hunk: outside a git section a range of no lines at line 0 says that
+    the file is removed (added); in a git section only together with `/dev/null` as the name -/
+def opOf (op : Operation) (hunk : Hunk) (isGit : Bool) (oldPath newPath : Bytes) : Operation :=
+  if op = .change then
+    (if hunk.new.start = 0 ∧ (isGit = false ∨ newPath = devNull) then .delete
+     else if hunk.old.start = 0 ∧ (isGit = false ∨ oldPath = devNull) then .add else .change)
+  else op
+
+/-- **the operation `parse_patch_header` returns**, in terms of the final state of the scan: the names are those of the
+    scan, and the operation is the one the scan found (git extended headers) unless that is `change`: then `opOf` -/
+theorem parseHeader_operation (par : Parser) (patch : Patch) (strip : Int) (body : Bool) (p : Patch) (info : HeaderInfo)
+    (par' : Parser) (h : parseHeader par patch strip = .ok (body, p, info, par')) :
+    ∃ st, headerLoop strip (par.s.rest.length + 2) { par := par, patch := patch } = .ok st ∧
+      p.oldPath = st.patch.oldPath ∧ p.newPath = st.patch.newPath ∧
+      p.operation = opOf st.patch.operation st.hunk st.isGit st.patch.oldPath st.patch.newPath := by
+  unfold parseHeader at h
+  simp only [] at h
+  split at h
+  · simp at h
+  · rename_i st hl
+    split at h
+    · simp at h
+    · simp only [Except.ok.injEq, Prod.mk.injEq] at h
+      obtain ⟨_, hp, _, _⟩ := h
+      refine ⟨st, hl, ?_⟩
+      subst hp
+      unfold opOf
+      cases hg : st.isGit <;> cases hf : st.foundFirstHunk <;>
+        simp only [Bool.false_eq_true, if_false, if_true, Bool.not_false, Bool.not_true, true_or, false_or, and_true] <;>
+        (repeat' split) <;> simp_all
+
+/-- **in a git section nothing is inferred from the ranges alone**: if neither name is `/dev/null` the operation is the one
+    the extended header lines gave (`change` when there was none) — `@@ -1 +0,0 @@` empties the file, it does not remove it -/
+theorem parseHeader_git_operation (par : Parser) (patch : Patch) (strip : Int) (body : Bool) (p : Patch) (info : HeaderInfo)
+    (par' : Parser) (h : parseHeader par patch strip = .ok (body, p, info, par')) (hg : p.format = .git)
+    (hold : p.oldPath ≠ devNull) (hnew : p.newPath ≠ devNull) :
+    ∃ st, headerLoop strip (par.s.rest.length + 2) { par := par, patch := patch } = .ok st ∧
+      p.operation = st.patch.operation := by
+  obtain ⟨st, hl, ho, hn, hop⟩ := parseHeader_operation par patch strip body p info par' h
+  obtain ⟨st', hl', hinv, _, _, _, hfmt⟩ := Cost.parseHeader_state par patch strip body p info par' h
+  rw [hl] at hl'
+  cases hl'
+  have hgit : st.isGit = true := by
+    cases hgi : st.isGit with
+    | true => rfl
+    | false =>
+      exfalso
+      rw [hgi, hg] at hfmt
+      simp only [Bool.false_eq_true, if_false] at hfmt
+      cases hff : st.foundFirstHunk with
+      | false => rw [hff] at hfmt; simp at hfmt
+      | true =>
+        rw [hff] at hfmt
+        have := (hinv.2.2 hff).2
+        simp only [Bool.not_true, Bool.false_eq_true, if_false] at hfmt
+        rw [← hfmt] at this; simp at this
+  refine ⟨st, hl, ?_⟩
+  rw [hop]
+  unfold opOf
+  rw [ho] at hold
+  rw [hn] at hnew
+  simp only [hgit, hold, hnew, or_self, and_false, if_false, Bool.true_eq_false]
+  split <;> simp_all
+
+/-! ### a whole git section header: `diff --git`, `--- old`, `+++ new`, range line, first body line -/
+
+theorem str_head (p : String) (c : UInt8) (bs : Bytes) (h : str p = c :: bs) : (str p).head? = some c := by rw [h]; rfl
+
+/-- a line that starts with none of the first letters of the git extended header keywords is none of them -/
+theorem gitExt_of_head (l : Bytes) (p : Patch) (strip : Int)
+    (h114 : l.head? ≠ some 114) (h99 : l.head? ≠ some 99) (h100 : l.head? ≠ some 100) (h110 : l.head? ≠ some 110)
+    (h111 : l.head? ≠ some 111) (h105 : l.head? ≠ some 105) (h71 : l.head? ≠ some 71) :
+    parseGitExtendedInfo l p strip = .ok (false, p) := by
+  have k : ∀ (kw : String) (c : UInt8) (bs : Bytes), str kw = c :: bs → l.head? ≠ some c → consumeStr (str kw) l = none :=
+    fun kw c bs hk hl => consumeStr_none_of_startsWith (startsWith_false_of_head l kw c bs hk hl)
+  have e1 : str "deleted file mode " = 100 :: [101, 108, 101, 116, 101, 100, 32, 102, 105, 108, 101, 32, 109, 111, 100, 101, 32] := by
+    unfold str String.toUTF8; rw [Cpp.byteArray_toList_eq_data]; rfl
+  have e2 : str "new file mode " = 110 :: [101, 119, 32, 102, 105, 108, 101, 32, 109, 111, 100, 101, 32] := by
+    unfold str String.toUTF8; rw [Cpp.byteArray_toList_eq_data]; rfl
+  have e3 : str "old mode " = 111 :: [108, 100, 32, 109, 111, 100, 101, 32] := by
+    unfold str String.toUTF8; rw [Cpp.byteArray_toList_eq_data]; rfl
+  have e4 : str "new mode " = 110 :: [101, 119, 32, 109, 111, 100, 101, 32] := by
+    unfold str String.toUTF8; rw [Cpp.byteArray_toList_eq_data]; rfl
+  have e5 : str "index " = 105 :: [110, 100, 101, 120, 32] := by
+    unfold str String.toUTF8; rw [Cpp.byteArray_toList_eq_data]; rfl
+  have e6 : str "GIT binary patch" = 71 :: [73, 84, 32, 98, 105, 110, 97, 114, 121, 32, 112, 97, 116, 99, 104] := by
+    unfold str String.toUTF8; rw [Cpp.byteArray_toList_eq_data]; rfl
+  unfold parseGitExtendedInfo
+  simp only [k _ _ _ Names.str_rename_from h114, k _ _ _ Names.str_rename_to h114, k _ _ _ Names.str_copy_to h99,
+    k _ _ _ Names.str_copy_from h99, k _ _ _ e1 h100, k _ _ _ e2 h110, k _ _ _ e3 h111, k _ _ _ e4 h110, k _ _ _ e5 h105,
+    k _ _ _ e6 h71]
+
+/-- a unified range line inside a git section: remembered as "looks unified", like outside one (`headerStep_range`) -/
+theorem headerStep_range_git (st : HState) (l : Bytes) (strip : Int) (f : NoKeyword l) (hg : st.isGit = true)
+    (hx : parseGitExtendedInfo l st.patch strip = .ok (false, st.patch))
+    (hf : st.patch.format = .unknown ∨ st.patch.format = .unified) (h' : Hunk)
+    (hb : ¬ (st.thisLooks = .unified ∧ bodyStart l))
+    (hp : parseUnifiedRange st.hunk l = (true, h')) :
+    headerStep st l strip =
+      .ok ({ entered st with hunk := h', thisLooks := .unified, ltfh := st.lines + 1 }, true) := by
+  rw [headerStep_tail st l strip f (fun hh => hb hh.2)]
+  unfold Cost.hdrTail Cost.hdrUnified
+  simp only [hg, hx, hf, hp, if_true]
+
+/-- a name as it stands on a `--- ` / `+++ ` line of a git diff (no time stamp after it): not empty, no TAB, no blank, not
+    quoted -/
+def wordName (n : Bytes) : Prop := n ≠ [] ∧ TAB ∉ n ∧ SP ∉ n ∧ n.head? ≠ some DQUOTE
+
+theorem headerLoop_git (strip : Int) (st : HState) (r name old new : Bytes) (h : Hunk) (first : Line)
+    (more : List Line) (fuel : Nat)
+    (hname : parseGitHeaderName r strip = .ok name)
+    (hold : wordName old) (hnew : wordName new) (hr : rangeOk h)
+    (hb : bodyStart first.content) (hterm : first.newline ≠ .none)
+    (hg : st.isGit = false)
+    (heof : st.par.s.eof = false) (hbad : st.par.s.bad = false)
+    (hrest : st.par.s.rest = ⟨str "diff --git " ++ r, .lf⟩ :: ⟨str "--- " ++ old, .lf⟩ :: ⟨str "+++ " ++ new, .lf⟩ ::
+                               ⟨Unified.rangeText h, .lf⟩ :: first :: more) :
+    headerLoop strip (fuel + 5) st =
+      .ok { st with par := { s := { st.par.s with rest := more }, lineNo := st.par.lineNo + 5 },
+                    patch := { st.patch with format := .unified, oldPath := stripped old strip, newPath := stripped new strip,
+                                             oldTime := st.patch.newTime, newTime := st.patch.oldTime },
+                    lines := st.lines + 5, thisLooks := .unknown, isGit := true,
+                    hunk := { st.hunk with old := h.old, new := h.new }, ltfh := st.lines + 4,
+                    foundFirstHunk := true } := by
+  obtain ⟨⟨⟨r0, e0, b0⟩, n0⟩, p, tl, li, g, sb, hk, lt⟩ := st
+  simp only at hg heof hbad hrest
+  subst hg heof hbad hrest
+  have hfl1 := Names.file_line_word old strip hold.1 hold.2.2.2 hold.2.1 hold.2.2.1
+  have hfl2 := Names.file_line_word new strip hnew.1 hnew.2.2.2 hnew.2.1 hnew.2.2.1
+  obtain ⟨h1, h2, h3, h4, h5, h6, h7, h8⟩ := hr
+  have hrng := fun h0 => Unified.unified_range_roundtrip h h0 h1 h3 h5 h7 h2 h4 h6 h8
+  have hrh := rangeText_head h
+  -- line 1
+  rw [show fuel + 5 = (fuel + 4) + 1 from rfl,
+    headerLoop_step strip _ _ _ ⟨_, .lf⟩ _ rfl rfl rfl (by simp) true (by
+      simp only []
+      rw [headerStep_git_first _ _ _ rfl, hname]
+      rfl)]
+  simp only [if_true]
+  -- line 2
+  rw [show fuel + 4 = (fuel + 3) + 1 from rfl,
+    headerLoop_step strip _ _ _ ⟨_, .lf⟩ _ rfl rfl rfl (by simp) true (by
+      simp only []
+      rw [headerStep_minus _ _ _ (not_firstBodyLine_of_looks (by simp)), hfl1]
+      rfl)]
+  simp only [if_true]
+  -- line 3
+  rw [show fuel + 3 = (fuel + 2) + 1 from rfl,
+    headerLoop_step strip _ _ _ ⟨_, .lf⟩ _ rfl rfl rfl (by simp) true (by
+      simp only []
+      rw [headerStep_plus _ _ _ (not_firstBodyLine_of_looks (by simp)), hfl2]
+      rfl)]
+  simp only [if_true]
+  -- line 4
+  rw [show fuel + 2 = (fuel + 1) + 1 from rfl,
+    headerLoop_step strip _ _ _ ⟨_, .lf⟩ _ rfl rfl rfl (by simp) true
+      (headerStep_range_git _ _ strip (noKeyword_rangeText h) rfl
+        (gitExt_of_head _ _ _ (by rw [hrh]; decide) (by rw [hrh]; decide) (by rw [hrh]; decide) (by rw [hrh]; decide)
+          (by rw [hrh]; decide) (by rw [hrh]; decide) (by rw [hrh]; decide))
+        (Or.inr rfl) _ (fun hh => not_bodyStart_rangeText h hh.2) (hrng _))]
+  simp only [if_true]
+  -- line 5
+  rw [headerLoop_step strip _ _ _ first _ rfl rfl rfl hterm false
+      (headerStep_first' _ _ strip (Or.inr rfl) rfl hb)]
+  simp only [Bool.false_eq_true, if_false, stripped]
+
+/-- the operation of a git section whose extended header lines say nothing: removed (added) only if the first range says
+    "no lines at line 0" AND the name on that side is `/dev/null` -/
+def gitInferredOp (h : Hunk) (oldPath newPath : Bytes) : Operation :=
+  if h.new.start = 0 ∧ newPath = devNull then .delete
+  else if h.old.start = 0 ∧ oldPath = devNull then .add else .change
+
+/-- **the header of a git section is read back**: `diff --git …`, `--- old`, `+++ new`, the range line and a first body
+    line give a git patch with the two names (stripped by `-p`), first hunk on line 4, the stream left at the range line —
+    and the operation `gitInferredOp`: for `+++ b/x` and `@@ -1 +0,0 @@` it is `change`, not `delete` -/
+theorem parseHeader_git_section (strip : Int) (par : Parser) (pt : Patch) (r name old new : Bytes) (h : Hunk) (first : Line)
+    (more : List Line)
+    (hname : parseGitHeaderName r strip = .ok name)
+    (hold : wordName old) (hnew : wordName new) (hr : rangeOk h)
+    (hb : bodyStart first.content) (hterm : first.newline ≠ .none)
+    (hop : pt.operation = .change)
+    (heof : par.s.eof = false) (hbad : par.s.bad = false)
+    (hrest : par.s.rest = ⟨str "diff --git " ++ r, .lf⟩ :: ⟨str "--- " ++ old, .lf⟩ :: ⟨str "+++ " ++ new, .lf⟩ ::
+                               ⟨Unified.rangeText h, .lf⟩ :: first :: more) :
+    parseHeader par pt strip =
+      .ok (true,
+           { pt with format := .git, operation := gitInferredOp h (stripped old strip) (stripped new strip),
+                     oldPath := stripped old strip, newPath := stripped new strip,
+                     oldTime := pt.newTime, newTime := pt.oldTime },
+           { linesTillFirstHunk := 4, format := .git },
+           { s := { rest := ⟨Unified.rangeText h, .lf⟩ :: first :: more, eof := false, bad := false },
+             lineNo := par.lineNo + 3 }) := by
+  have hloop := headerLoop_git strip { par := par, patch := pt } r name old new h first more (more.length + 2)
+    hname hold hnew hr hb hterm rfl heof hbad hrest
+  have hlen : par.s.rest.length + 2 = (more.length + 2) + 5 := by
+    rw [hrest]; simp only [List.length_cons]
+  unfold parseHeader
+  rw [hlen, hloop]
+  simp only [PStream.clear, PStream.seek, if_true, hop, Bool.not_true, Bool.false_eq_true, false_or]
+  have hsk := skipLines_terminated
+    [⟨str "diff --git " ++ r, .lf⟩, ⟨str "--- " ++ old, .lf⟩, (⟨str "+++ " ++ new, .lf⟩ : Line)]
+    (⟨Unified.rangeText h, .lf⟩ :: first :: more) { s := { rest := par.s.rest }, lineNo := par.lineNo } rfl rfl
+    (by rw [hrest]; rfl)
+    (by intro l hl; simp only [List.mem_cons, List.not_mem_nil, or_false] at hl; rcases hl with rfl | rfl | rfl <;> simp)
+  have e : 0 + 4 - 1 = [(⟨str "diff --git " ++ r, .lf⟩ : Line), ⟨str "--- " ++ old, .lf⟩, ⟨str "+++ " ++ new, .lf⟩].length := rfl
+  rw [e, hsk]
+  simp only [List.length_cons, List.length_nil, gitInferredOp]
+  split
+  · rfl
+  · split <;> rfl
 
 end PatchModel.Header
